@@ -52,7 +52,7 @@ import "net"
 //@   ensures[new] err == nil ==> result0 != nil && fresh(result0)
 //@   ensures[header] err == nil ==> result0.MessageType == mType && result0.LinkAddr == linkAddr && result0.PeerAddr == peerAddr
 //@   ensures[hops] err == nil ==> (typeIs(d, *RelayMessage) ==> int(result0.HopCount) == (int(d.(*RelayMessage).HopCount) + 1) % 256) && (typeIs(d, *Message) ==> int(result0.HopCount) == 0)
-//@   ensures[payload] err == nil ==> len(result0.Options.Options) == 1 && result0.Options.Options[0] != nil && typeIs(result0.Options.Options[0], *optRelayMsg) && result0.Options.Options[0].(*optRelayMsg).Msg == d && fresh(result0.Options.Options)
+//@   ensures[payload] err == nil ==> len(result0.Options.Options) == 1 && result0.Options.Options[0] != nil && typeIs(result0.Options.Options[0], *optRelayMsg) && result0.Options.Options[0].(*optRelayMsg).Msg == d && fresh(result0.Options.Options) && exact(result0.Options.Options[0].(*optRelayMsg))
 
 // encapsulating and decapsulating returns the original message
 //@ contract lemmaEncapDecap
@@ -230,3 +230,57 @@ func ghostMark(k int) int { return k }
 //@   ensures[solicit] err == nil ==> result0 != nil && fresh(result0) && int(result0.MessageType) == 1
 //@   ensures[client-id] err == nil ==> len(result0.Options.Options) >= 3 && typeIs(result0.Options.Options[0], *optClientID) && typeIs(result0.Options.Options[0].(*optClientID).DUID, *DUIDLLT) && result0.Options.Options[0].(*optClientID).DUID.(*DUIDLLT).LinkLayerAddr == hwaddr
 //@   ensures[short-address] len(hwaddr) < 4 ==> err != nil
+// ---------- relay reply from relay forward: BOUNDED (chains of at most two relay levels) ----------
+//
+// The reply chain is built in a loop and would need a description of the structure under construction that the
+// contract language does not have (the ghost chain above describes a given chain, not one being built). The function is
+// therefore checked with both loops unrolled, for forward chains of one and two relay levels (unwinding obligations make
+// the unrolling complete for that bound): level k of the reply has the link and peer address of level k of the forward
+// chain, carries level k+1 (the given message at the bottom) as its first option, followed by exactly the interface-id
+// (18) and remote-id (37) options of forward level k that exist, in that order.
+//@ define fwd1() = ghostChain(1).(*RelayMessage)
+//@ define echoed(ro, fo) = (forall i int :: {fo[i]} firstWithCode(fo, 18, i) ==> len(ro) >= 2 && ro[1] == fo[i]) && (forall i int :: {fo[i]} firstWithCode(fo, 37, i) ==> (noneWithCode(fo, 18) ==> len(ro) == 2 && ro[1] == fo[i]) && (!noneWithCode(fo, 18) ==> len(ro) == 3 && ro[2] == fo[i])) && (noneWithCode(fo, 37) ==> (noneWithCode(fo, 18) ==> len(ro) == 1) && (!noneWithCode(fo, 18) ==> len(ro) == 2))
+//@ define case1() = F0 != nil && msg != nil && int(F0.MessageType) == 12 && ghostDepth(0) == 1
+//@ define case2() = F0 != nil && msg != nil && int(F0.MessageType) == 12 && ghostDepth(0) == 2
+//@ define inner1() = result0.(*RelayMessage).Options.Options[0].(*optRelayMsg).Msg
+//@ define hdrLevel(R, F, inner) = R != nil && int(R.MessageType) == 13 && R.LinkAddr == F.LinkAddr && R.PeerAddr == F.PeerAddr && len(R.Options.Options) >= 1 && typeIs(R.Options.Options[0], *optRelayMsg) && R.Options.Options[0].(*optRelayMsg).Msg == inner
+//@ define isFirst(x, fo, c) = exists i int :: {fo[i]} firstWithCode(fo, c, i) && x == fo[i]
+//@ define echo18(ro, fo) = noneWithCode(fo, 18) || (len(ro) >= 2 && ro[1] != nil && isFirst(ro[1], fo, 18))
+//@ define echo37(ro, fo) = noneWithCode(fo, 37) || (noneWithCode(fo, 18) && len(ro) == 2 && ro[1] != nil && isFirst(ro[1], fo, 37)) || (!noneWithCode(fo, 18) && len(ro) == 3 && ro[2] != nil && isFirst(ro[2], fo, 37))
+//@ define echoLen(ro, fo) = noneWithCode(fo, 37) ==> (noneWithCode(fo, 18) ==> len(ro) == 1) && (!noneWithCode(fo, 18) ==> len(ro) == 2)
+//@ define replyLevel(R, F, inner) = R != nil && int(R.MessageType) == 13 && R.LinkAddr == F.LinkAddr && R.PeerAddr == F.PeerAddr && len(R.Options.Options) >= 1 && typeIs(R.Options.Options[0], *optRelayMsg) && R.Options.Options[0].(*optRelayMsg).Msg == inner && echoed(R.Options.Options, F.Options.Options)
+//@ define isPlain(x) = typeIs(x, *Message) && x.(*Message) != nil
+// the forward chain, spelled out for the two depths (ghostChain(1), ghostChain(2) name the carried messages)
+//@ define oneLevel(relay) = ghostDepth(0) == 1 && relayAt(DHCPv6(relay), ghostChain(1)) && isPlain(ghostChain(1)) && optsNonNil(relay.Options.Options)
+//@ define twoLevels(relay) = ghostDepth(0) == 2 && relayAt(DHCPv6(relay), ghostChain(1)) && relayAt(ghostChain(1), ghostChain(2)) && isPlain(ghostChain(2)) && optsNonNil(relay.Options.Options) && optsNonNil(fwd1().Options.Options)
+
+// gotOpt(x, o, c): x is what GetOne(c) returns for the list o
+//@ define gotOpt(x, o, c) = (x == nil ==> noneWithCode(o, c)) && (x != nil ==> (exists i int :: {o[i]} firstWithCode(o, c, i) && x == o[i]))
+//@ define collected(k, F) = linkAddr[k] == F.LinkAddr && peerAddr[k] == F.PeerAddr && gotOpt(optiid[k], F.Options.Options, 18) && gotOpt(optrid[k], F.Options.Options, 37)
+
+//@ contract NewRelayReplFromRelayForw
+//@   unroll 3
+//@   requires relay != nil ==> oneLevel(relay) || twoLevels(relay)
+//@   let F0 = relay
+//@   after `m := DHCPv6(msg)` assert[collected] msg != nil && int(F0.MessageType) == 12 && len(linkAddr) == ghostDepth(0) && len(peerAddr) == ghostDepth(0) && len(optiid) == ghostDepth(0) && len(optrid) == ghostDepth(0) && collected(0, F0) && (ghostDepth(0) == 2 ==> collected(1, fwd1())) && m == DHCPv6(msg)
+//@   ensures[nil] F0 == nil || msg == nil ==> result1 != nil
+//@   ensures[type] F0 != nil && int(F0.MessageType) != 12 ==> result1 != nil
+//@   ensures[one-a] case1() ==> result1 == nil && typeIs(result0, *RelayMessage) && result0.(*RelayMessage) != nil
+//@   ensures[one-b1] case1() ==> int(result0.(*RelayMessage).MessageType) == 13
+//@   ensures[one-b2] case1() ==> result0.(*RelayMessage).LinkAddr == F0.LinkAddr
+//@   ensures[one-b3] case1() ==> len(result0.(*RelayMessage).Options.Options) >= 1
+//@   ensures[one-b4] case1() ==> typeIs(result0.(*RelayMessage).Options.Options[0], *optRelayMsg)
+//@   ensures[one-b5] case1() ==> result0.(*RelayMessage).Options.Options[0].(*optRelayMsg).Msg == DHCPv6(msg)
+//@   ensures[one-b6] case1() && noneWithCode(F0.Options.Options, 18) && noneWithCode(F0.Options.Options, 37) ==> typeIs(result0.(*RelayMessage).Options.Options[0], *optRelayMsg)
+//@   ensures[one-c] case1() ==> echo18(result0.(*RelayMessage).Options.Options, F0.Options.Options)
+//@   ensures[one-d] case1() ==> echo37(result0.(*RelayMessage).Options.Options, F0.Options.Options)
+//@   ensures[one-e] case1() ==> echoLen(result0.(*RelayMessage).Options.Options, F0.Options.Options)
+//@   ensures[two-a] case2() ==> result1 == nil && typeIs(result0, *RelayMessage) && result0.(*RelayMessage) != nil && len(result0.(*RelayMessage).Options.Options) >= 1 && typeIs(result0.(*RelayMessage).Options.Options[0], *optRelayMsg) && typeIs(inner1(), *RelayMessage)
+//@   ensures[two-b] case2() ==> hdrLevel(result0.(*RelayMessage), F0, inner1())
+//@   ensures[two-c18] case2() ==> echo18(result0.(*RelayMessage).Options.Options, F0.Options.Options)
+//@   ensures[two-c37] case2() ==> echo37(result0.(*RelayMessage).Options.Options, F0.Options.Options)
+//@   ensures[two-clen] case2() ==> echoLen(result0.(*RelayMessage).Options.Options, F0.Options.Options)
+//@   ensures[two-d] case2() ==> hdrLevel(inner1().(*RelayMessage), fwd1(), DHCPv6(msg))
+//@   ensures[two-e18] case2() ==> echo18(inner1().(*RelayMessage).Options.Options, fwd1().Options.Options)
+//@   ensures[two-e37] case2() ==> echo37(inner1().(*RelayMessage).Options.Options, fwd1().Options.Options)
+//@   ensures[two-elen] case2() ==> echoLen(inner1().(*RelayMessage).Options.Options, fwd1().Options.Options)
